@@ -144,16 +144,20 @@ Proof.
 Qed.
 
 (* the live tables are the documented ones, and the model of _build_operator_table
-   reproduces the live result (levels, token names, aliases); every level of the live
+   reproduces the live result (levels and aliases per symbol; ply token names are
+   internal and ignored); every level of the live
    tables is visited by the precedence loop of parser.py *)
 Theorem C02_tables_pinned :
   default_ops = Spec.default_ops /\ legacy_ops = Spec.legacy_ops /\
-  build_table default_ops = default_built /\ build_table legacy_ops = legacy_built /\
+  option_map strip_names (build_table default_ops) = option_map strip_names default_built /\
+  option_map strip_names (build_table legacy_ops) = option_map strip_names legacy_built /\
+  default_built <> None /\ legacy_built <> None /\
   option_map all_levels_visited default_built = Some true /\
   option_map all_levels_visited legacy_built = Some true.
 Proof.
   split; [vm_compute; reflexivity|]. split; [vm_compute; reflexivity|].
   split; [vm_compute; reflexivity|]. split; [vm_compute; reflexivity|].
+  split; [discriminate|]. split; [discriminate|].
   split; vm_compute; reflexivity.
 Qed.
 
